@@ -3,6 +3,7 @@ package checks
 import (
 	"errors"
 	"fmt"
+	"strings"
 
 	"verif/harness/check"
 	"verif/harness/core"
@@ -43,6 +44,11 @@ func schedFaultScenarios(action string) []faultScenario {
 		{"F11:a/failure in the 4th batch", `a`, 2, 41, []mstore.Fault{f("next", 0, 31)}, 2},
 		{"F12:sum by (l)(a)/failure in the 4th batch", `sum by (l) (a)`, 2, 41, []mstore.Fault{f("next", 1, 33)}, 1},
 		{"F13:a+b/failure in the 4th batch", `a + on (l) group_left b`, 2, 41, []mstore.Fault{f("next", 3, 35)}, 1},
+		// the same kinds under delay bounding (a deviation stalls the passed-over threads)
+		{"F14:a/failure in the 4th batch/delays", `a`, 2, 41, []mstore.Fault{f("next", 0, 31)}, 2},
+		{"F15:a/one shard fails late/delays", `a`, 4, 12, []mstore.Fault{f("next", 2, 3)}, 2},
+		{"F16:sum by (l)(a)/failure in the 2nd batch/delays", `sum by (l) (a)`, 2, 12, []mstore.Fault{f("next", 1, 11)}, 2},
+		{"F17:a+b/left fails in the 2nd batch/delays", `a + on (l) group_left b`, 2, 12, []mstore.Fault{f("next", 1, 11)}, 1},
 	}
 }
 
@@ -55,7 +61,7 @@ func runFaultSched(c *check.Ctx, prop, action string, events []string, oracle fu
 		if !c.Thorough() && d > 1 && (len(events) > 0) {
 			d = 1
 		}
-		s := schedScenario{Scenario: explore.Scenario{Name: fs.name + "/" + action, Case: cs}, DQuick: d, DThorough: fs.d}
+		s := schedScenario{Scenario: explore.Scenario{Name: fs.name + "/" + action, Case: cs, Delay: strings.HasSuffix(fs.name, "/delays")}, DQuick: d, DThorough: fs.d}
 		runSchedAllowFailingRoot(c, &s, prop, events, oracle)
 		c.Rep.Extra["sched_faults_fired"] += fired
 		c.Rep.Extra["sched_faults_not_reached"] += notFired
